@@ -104,7 +104,7 @@ func (in *Instance) QueryView(limit uint64) (q M) {
 		q["pausedSR"] = r.Paused.Paused
 	}
 	if r, err := k.SignatureThreshold(ctx, &types.QueryGetSignatureThresholdRequest{}); err == nil {
-		q["threshold"] = int(r.Amount.Amount)
+		q["threshold"] = ThresholdSym(r.Amount.Amount)
 	}
 	if r, err := k.MaxMessageBodySize(ctx, &types.QueryGetMaxMessageBodySizeRequest{}); err == nil && r.Amount.Amount < 1<<30 {
 		q["maxBody"] = int(r.Amount.Amount)
